@@ -4,7 +4,7 @@ import vcheck
 PROP = "C14"
 
 TRUSTED = [
-    "go2coq translator (harness/cmd/go2coq, semantics coq/lib/GoSem.v): props/C14/coq/Gen.v is regenerated from the Go source of util.Bitmask.GetSize/Get/HasBitsIn, seq.MID.Time, seq.MIDsDistribution.size/midToIndex/isUndefined/IsIntersecting on every run; supported subset: integer/boolean expressions over int, int64, uint64, uint32, uint8 and named integer types with explicit wrap-around, truncated signed division, checked division/indexing/slicing/shift counts (Panic), if/else with early return, local assignments, tuples, calls between translated functions, min/max/len, numeric struct fields, fuelled for-loops, range loops as folds; anything else is rejected (red gate). externs (props/C14/coq/GenPrelude.v, hand-written): time.UnixMilli -> time_UnixMilli, time.Time.Before -> time_Before, time.Time.After -> time_After, time.Time.Sub -> time_Sub (saturating), a time.Time made by UnixMilli = its int64 millisecond count. Validated on every run by the gen-* correspondence classes (real function vs generated definition on boundary and random arguments)",
+    "go2coq translator (harness/cmd/go2coq, semantics coq/lib/GoSem.v): props/C14/coq/Gen.v is regenerated from the Go source of util.Bitmask.GetSize/Get/HasBitsIn, seq.MID.Time, seq.MIDsDistribution.size/midToIndex/isUndefined/IsIntersecting on every run; supported subset: integer/boolean expressions over int, int64, uint64, uint32, uint8 and named integer types with explicit wrap-around, truncated signed division, checked division/indexing/slicing/shift counts (Panic), if/else with early return, local assignments, tuples, calls between translated functions, min/max/len, numeric struct fields, fuelled for-loops, range loops as folds; anything else is rejected (red gate). externs (props/C14/coq/GenPrelude.v, hand-written): time.UnixMilli -> time_UnixMilli, time.Time.Before -> time_Before, time.Time.After -> time_After, time.Time.Sub -> time_Sub (saturating), a time.Time made by UnixMilli = its int64 millisecond count. Validated on every run by the gen-* correspondence classes (real function vs generated definition on boundary and random arguments). Round 2: + seq.LessOrEqual, util.BinSearchInRange, processor.getLIDsBorders (subset extended by struct literals, assignment to a field of a local struct, function-typed parameters, function literals as `fun x => <monadic body>`, monadic externs); further externs in GenPrelude.v: sort.Search -> sort_Search (the binary search loop of the Go standard library, midpoint (i+j)/2, 65 rounds of fuel, a panicking predicate propagates; theorem C14_gen_sort_Search_adequate: equal to the model's sort_search), the interface value idsIndex -> record ids_index with its methods Len -> ix_len and LessOrEqual -> ix_le (pure)",
     "Coq 8.16.1 kernel (coqc), vm_compute for case evaluation; no native_compute",
     "hand-written model props/C14/coq/Model.v of util.Bitmask, seq.MIDsDistribution (+ JSON fields), frac.Info "
     "(BuildDistribution/IsIntersecting), List.FilterInRange, getLIDsBorders + sort.Search, active/sealed LessOrEqual, MinBlockIDs "
